@@ -14,6 +14,7 @@ import (
 	"context"
 	"encoding/json"
 	"fmt"
+	defranet "github.com/sourcenetwork/defradb/net"
 	"os"
 	"path/filepath"
 	"runtime/debug"
@@ -286,6 +287,18 @@ func (w *world) dumpOf(i *inst, withPeer bool) (full string, abstract string) {
 	must(err)
 	sort.Strings(p2p)
 	sb.WriteString("P2P " + strings.Join(p2p, ",") + "\n")
+	// the topics of the P2P collections the peer listens on (document topics come and go with traffic)
+	listening := map[string]bool{}
+	for _, tp := range i.n.Peer.(*defranet.Peer).VerifSubscribedTopics() {
+		listening[tp] = true
+	}
+	var deaf []string
+	for _, id := range p2p {
+		if !listening[id] {
+			deaf = append(deaf, id)
+		}
+	}
+	sb.WriteString("P2P-NOT-LISTENING " + strings.Join(deaf, ",") + "\n")
 	reps, err := i.n.Peer.GetAllReplicators(ctx)
 	must(err)
 	var rs []string
